@@ -159,3 +159,19 @@ def h1(ctx: Ctx) -> None:
     from .c13 import check_call_sites
 
     check_call_sites(ctx, {"before_order"})
+
+
+@rule("C15.R4", "the rule's targets are exactly the configured markets, and each rule object keeps its own target table", "T10 provenance + per-instance state", floor=2)
+def r4(ctx: Ctx) -> None:
+    from .events import check_instance_state, check_target_table
+
+    check_target_table(ctx, PLR)
+    n = check_instance_state(ctx, PLR)
+    ctx.require(n >= 1, f"{PLR}: no container changed in place found (the target table is expected)")
+
+
+@rule("C15.H2", "mechanism shared with C13: the hooks an event declares are registered for that very event (the rule is only active if its own hook reaches the simulator)", "T4 + closure capture (same rule as C13.R5)", floor=3)
+def h2(ctx: Ctx) -> None:
+    from .c13 import r5 as registration_rule
+
+    registration_rule(ctx)
